@@ -27,7 +27,7 @@ func HarnessC16() {
 		}
 		required = zzvrt.Bool()
 	} else {
-		pt, ps = zzGen(zzvrt.Param("KINDS", zzAllKinds|zzKMap|zzKEnumStrNull), zzvrt.Param("DEPTH", 1), true)
+		pt, ps = zzGen(zzvrt.Param("KINDS", zzEveryKind), zzvrt.Param("DEPTH", 1), true)
 		required = zzvrt.Bool()
 		viaRef = zzvrt.Bool()
 	}
